@@ -318,12 +318,15 @@ def catalogue(tier):
     for atm, pair in ((0, [0, 1]), (1, [1, 4]), (2, [0, 4]), (1, [2, 5])):
         add_split(1, 2, 3, family='rect', shape=(3, 2, 3), atm=atm, conv=atm, order=ORDERS[atm], angle=ANGLES[atm],
                   use_map=bool(atm % 2), surf_cols=pair)
-    add_split(1, 3, 3, family='rect', shape=(3, 2, 3), atm=1, conv=3, order=None, angle=30.0, use_map=True, surf_cols=[0, 1, 4])
+    for cls4 in (0, 2, 6):      # third free column: above the top / inside layer 1 / at the top of the bottom layer
+        for k2 in split(dict(family='rect', shape=(3, 2, 3), atm=1, conv=3, order=None, angle=30.0, use_map=True, surf_cols=[0, 1, 4]), 3, 3, 1):
+            k2['fix'][4] = cls4
+            T.append((task_fromgeo, k2))
     # (7) irregular, more freedom
-    add_split(1, 1, 2, family='mix5', shape=2, atm=0, conv=0, order=None, angle=0.0, use_map=False, surf_cols=[0], mixmode='full')
+    add_split(1, 1, 2, family='triquad', shape=2, atm=0, conv=0, order=None, angle=0.0, use_map=False, surf_cols=[0], mixmode='full')
     add_split(1, 1, 2, family='mix5', shape=2, atm=1, conv=3, order='layer_column', angle=30.0, use_map=True, surf_cols=[4], mixmode='full')
     add_split(1, 1, 2, family='triquad', shape=2, atm=2, conv=1, order='dmplex', angle=90.0, use_map=True, surf_cols=[3], mixmode='full')
-    for pair, atm in (([0, 2], 0), ([3, 4], 1), ([1, 4], 2), ([2, 4], 1)):
+    for pair, atm in (([0, 2], 0), ([3, 4], 1)):
         add_split(1, 2, 2, family='mix5', shape=2, atm=atm, conv=atm, order=None, angle=0.0, use_map=bool(atm), surf_cols=pair, mixmode='stretch')
     add_split(1, 1, 3, family='mix5', shape=3, atm=1, conv=0, order=None, angle=30.0, use_map=False, surf_cols=[4], mixmode='stretch')
     add_split(1, 2, 2, family='triquad', shape=2, atm=1, conv=2, order='dmplex', angle=0.0, use_map=True, surf_cols=[1, 3], mixmode='stretch')
@@ -365,7 +368,7 @@ def run(tier, seed, rep):
     ]
     if not quick:
         rep.bounds += ['RECT(3x2x3): pairs of free surfaces [0,1] (atm 0), [1,4] and [2,5] (atm 1), [0,4] (atm 2) (49 arrangements each), '
-                       'the triple [0,1,4] (343 arrangements); the other columns at the default surface']
+                       'the triple [0,1,4] (147 arrangements: column 4 above the top / inside layer 1 / at the top of the bottom layer); the other columns at the default surface']
     rep.outside += [
         'tilted geometries (gdcx / gdcy non-zero): only the untilted gravity cosines are decided',
         'rotation at angles whose cosine/sine are irrational (cos/sin of symbolic or general angles are not encoded)',
